@@ -96,6 +96,8 @@ fn main() {
             "C05" => vharness::checks::c05::run(tier),
             "C06" => vharness::checks::c06::run(tier),
             "C07" => vharness::checks::c07::run(tier),
+            "C08" => vharness::checks::c08::run(tier),
+            "C09" => vharness::checks::c09::run(tier),
             other => {
                 eprintln!("unknown check {other}");
                 2
